@@ -352,14 +352,23 @@ func parseClassSet(sc *scanner) class {
 			}
 			fallthrough
 		case '-':
-			if len(set.Classes) > 0 {
-				sc.Next()
-				isrange = true
-				continue
+			// '-' makes a range only after a plain character, not after
+			// a %x class or a complete range (there it is a literal '-')
+			if n := len(set.Classes); n > 0 && !isrange {
+				if _, plain := set.Classes[n-1].(*charClass); plain {
+					sc.Next()
+					isrange = true
+					continue
+				}
 			}
 			fallthrough
 		default:
-			set.Classes = append(set.Classes, parseClass(sc, false))
+			if isrange {
+				// the byte after '-' ends the range, whatever it is
+				set.Classes = append(set.Classes, &charClass{sc.Next()})
+			} else {
+				set.Classes = append(set.Classes, parseClass(sc, false))
+			}
 		}
 		if isrange {
 			begin := set.Classes[len(set.Classes)-2]
